@@ -45,6 +45,10 @@ CHECKS = {
    text="Every ordered pair of shapes, both constructors, generated union histories with variant accessors, addresses, counts and comparisons checked after every op; final free layout checked by the allocator; identity-tracked unions inside the sized-world histories (per-type magic detects a destructor of the wrong type).",
    note="Trusted: tracking allocator, Tok registry; shapes sampled.",
    technique="model-based property testing of union histories over a generated shape-pair matrix (proptest)"),
+ "C16": dict(engine="c16-children", category="exploration", design="5 (C16)",
+   text="Child processes over the complete grid of 16 clone entry points x the 10 listed starting counts x {std, no_std}, plus generated boundary-biased counts; the counter's address is learnt through the shim and preset; termination signal and output decide.",
+   note="Trusted: presetting the count word is equivalent to having forgotten that many handles; SIGABRT/SIGILL both count as abort; at exactly isize::MAX either clean outcome is accepted (the code documents the abort as 'not necessarily at exactly MAX_REFCOUNT + 1').",
+   technique="enumerated + generated child-process fault tests with a termination-status oracle (proptest)"),
 }
 NOT_YET = {
 }
@@ -78,6 +82,7 @@ m = {
  "engines": [
    {"name": "sched", "path": "harness/hist/src/sched.rs + harness/rt/src/sim.rs", "serves_properties": ["C02", "C03", "C08", "C09"], "kind_free_text": "schedule engine: generated thread programs under a harness-owned scheduler, operational memory model with stale loads, vector-clock race oracle"},
    {"name": "hist-thin", "path": "harness/hist/src/hist_thin.rs", "serves_properties": ["C10", "C01", "C03", "C04"], "kind_free_text": "model-based history engine for the thin world (ThinArc and its fat views)"},
+   {"name": "c16-children", "path": "harness/eng/src/c16.rs", "serves_properties": ["C16"], "kind_free_text": "child-process outcome engine"},
    {"name": "matrix", "path": "harness/mx/src/lib.rs", "serves_properties": ["C05", "C11", "C12"], "kind_free_text": "static shape matrix engine with an allocator-level observed oracle"},
    {"name": "hist", "path": "harness/hist/src/hist_sized.rs", "serves_properties": ["C01", "C03", "C04", "C08", "C09"], "kind_free_text": "model-based history engine (proptest-generated op sequences, reference model, tracking allocator, identity-tracked payloads)"},
  ],
